@@ -4,6 +4,7 @@ import (
 	"fmt"
 	"go/types"
 	"math/big"
+	"sort"
 	"strings"
 
 	"golang.org/x/tools/go/ssa"
@@ -240,10 +241,20 @@ func (fr *Frame) lockEvent(in ssa.Instruction, mu *Val, acquire bool) {
 	key := mu.P.Heap + "@" + mu.P.Ref
 	if !acquire {
 		fr.lockInvariant(in, mu, false)
-		delete(fr.held, key)
+		if fr.held[key] {
+			delete(fr.held, key)
+		} else {
+			// released through a syntactically different reference: drop every lock of this mutex field
+			for k := range fr.held {
+				if strings.HasPrefix(k, mu.P.Heap+"@") {
+					delete(fr.held, k)
+				}
+			}
+		}
 		return
 	}
 	fr.held[key] = true
+	key = mu.P.Heap // re-acquisition is tracked per mutex field
 	vc.acquired[key]++
 	guarded := vc.guardedBy(mu.P.Heap)
 	defer fr.lockInvariant(in, mu, true)
@@ -285,11 +296,8 @@ func (fr *Frame) locksetCheck(in ssa.Instruction, p *Ptr, what string) {
 			return
 		}
 	}
-	key := mu + "@" + p.Ref
-	cond := "false"
-	if fr.held[key] {
-		cond = "true"
-	}
+	// semantic check: the object's mutex is one of those held (reference terms may differ syntactically)
+	cond := heldFormula(fr.held, mu, p.Ref)
 	ck := "lockset@" + FuncName(fr.fn)
 	n := vc.callCount[ck]
 	vc.callCount[ck] = n + 1
@@ -347,4 +355,16 @@ func (fr *Frame) lockInvariant(in ssa.Instruction, mu *Val, acquire bool) {
 		vc.addObl(&Obligation{Kind: "lockinv", Anchor: anchor, Props: fr.c.Props, Desc: fmt.Sprintf("invariant of %s holds at release: %s (%s:%d)", li.Mutex, li.Cl.Src, shortFile(pos.Filename), pos.Line),
 			File: pos.Filename, Line: pos.Line, Goals: []Goal{{fr.here(), cond}}, Mark: vc.S.Mark()})
 	}
+}
+
+// heldFormula: "ref's mutex (field muHeap) is among the held locks".
+func heldFormula(held map[string]bool, muHeap string, ref Term) Term {
+	var alts []Term
+	for k := range held {
+		if strings.HasPrefix(k, muHeap+"@") {
+			alts = append(alts, eq(ref, k[len(muHeap)+1:]))
+		}
+	}
+	sort.Strings(alts)
+	return or(alts...)
 }
